@@ -105,3 +105,21 @@ Example sha256_448bits :
   hex_of (sha256 [x61; x62; x63; x64; x62; x63; x64; x65; x63; x64; x65; x66; x64; x65; x66; x67; x65; x66; x67; x68; x66; x67; x68; x69; x67; x68; x69; x6a; x68; x69; x6a; x6b; x69; x6a; x6b; x6c; x6a; x6b; x6c; x6d; x6b; x6c; x6d; x6e; x6c; x6d; x6e; x6f; x6d; x6e; x6f; x70; x6e; x6f; x70; x71])
   = 0x248d6a61d20638b8e5c026930c3e6039a33ce45964ff2167f6ecedd419db06c1.
 Proof. vm_compute. reflexivity. Qed.
+
+(** the padded message is a whole number of 64-byte blocks, and keeps the message as a prefix *)
+Lemma pad_blocks m : (length (pad m) mod 64 = 0)%nat.
+Proof.
+  unfold pad. cbv zeta. rewrite !app_length, zeros_length, be_enc_length. cbn [length].
+  set (l := length m).
+  assert (H : (l + (1 + ((64 - (l + 9) mod 64) mod 64 + 8)) = (l + 9) + (64 - (l + 9) mod 64) mod 64)%nat) by lia.
+  rewrite H. pose proof (Nat.mod_upper_bound (l + 9) 64 ltac:(lia)) as Hb.
+  pose proof (Nat.div_mod (l + 9) 64 ltac:(lia)) as Hd.
+  destruct (Nat.eq_dec ((l + 9) mod 64) 0) as [E|E].
+  - rewrite E. replace ((64 - 0) mod 64)%nat with 0%nat by reflexivity. rewrite Nat.add_0_r. exact E.
+  - rewrite (Nat.mod_small (64 - (l + 9) mod 64) 64) by lia.
+    replace (l + 9 + (64 - (l + 9) mod 64))%nat with ((1 + (l + 9) / 64) * 64)%nat by lia.
+    apply Nat.mod_mul. lia.
+Qed.
+Lemma pad_prefix m : firstn (length m) (pad m) = m.
+Proof. unfold pad. cbv zeta. rewrite firstn_app, Nat.sub_diag, firstn_all. cbn [firstn]. now rewrite app_nil_r. Qed.
+
